@@ -225,6 +225,7 @@ class Ctx:
         self.decls = []
         self.sort_decls = {}
         self.assumptions = []
+        self.tags = {}           # id(assumption T) -> tag ('elem' | 'cover'): the two halves of a comprehension characterisation
         self.lits = {}
         self.n = 0
         self.obligations = []
@@ -610,7 +611,8 @@ class State:
         if smt.is_true(t):
             return self
         s = self.copy()
-        s.pc = self.pc + (t,)
+        # conjunctions are kept as separate hypotheses (smaller asserts; enables relevance filtering)
+        s.pc = self.pc + tuple(t.conj if t.conj else [t])
         return s
 
     def harr(self, ctx, cls, f):
@@ -1305,7 +1307,9 @@ class Engine:
             src_exists = self.comp(node.generators, env, st, lambda env2: veq(c, L.at(j), self.ev(node.elt, env2, st), None), "any")
         finally:
             c.bound.pop()
-        c.assumptions.append(ForAll([j], Implies(And(Le(Int(0), j), Lt(j, L.n)), src_exists)))
+        a_elem = ForAll([j], Implies(And(Le(Int(0), j), Lt(j, L.n)), src_exists))
+        c.assumptions.append(a_elem)
+        c.tags[id(a_elem)] = "elem"
         # the instance at index 0 explicitly (non-emptiness is usually asked through len() only)
         zero = self.comp(node.generators, env, st, lambda env2: veq(c, L.at(Int(0)), self.ev(node.elt, env2, st), None), "any")
         c.assumptions.append(Implies(Lt(Int(0), L.n), zero))
@@ -1314,7 +1318,9 @@ class Engine:
             e = self.ev(node.elt, env2, st)
             k = c.bvar("k", "Int")
             return Exists([k], And(Le(Int(0), k), Lt(k, L.n), veq(c, L.at(k), e, None)))
-        c.assumptions.append(self.comp(node.generators, env, st, covered, "all"))
+        a_cover = self.comp(node.generators, env, st, covered, "all")
+        c.assumptions.append(a_cover)
+        c.tags[id(a_cover)] = "cover"
         return L
 
     def ev_DictComp(self, node, env, st):
